@@ -229,8 +229,26 @@ func (e *Engine) assume(st *State, t *Term) {
 		return
 	}
 	st.pcSeen[t.ID] = true
+	st.noteConjuncts(e.tb, t)
 	st.PC = append(st.PC, t)
 	e.logAssume(t)
+}
+
+// noteConjuncts marks the conjuncts of an assumed formula as known.
+func (st *State) noteConjuncts(tb *TB, t *Term) {
+	if t.Op == "and" {
+		for _, a := range t.Args {
+			st.pcSeen[a.ID] = true
+			st.noteConjuncts(tb, a)
+		}
+	}
+	if t.Op == "not" && t.Args[0].Op == "or" {
+		for _, a := range t.Args[0].Args {
+			n := tb.Not(a)
+			st.pcSeen[n.ID] = true
+			st.noteConjuncts(tb, n)
+		}
+	}
 }
 
 // feasible is a cheap syntactic check.
@@ -714,4 +732,28 @@ func posStr(fset *token.FileSet, p token.Pos) string {
 	}
 	ps := fset.Position(p)
 	return fmt.Sprintf("%s:%d", strings.TrimPrefix(ps.Filename, "/repo/"), ps.Line)
+}
+
+// knows reports whether t is syntactically implied by the path condition (t itself, or all its conjuncts, were assumed).
+func (st *State) knows(tb *TB, t *Term) bool {
+	if st.pcSeen[t.ID] {
+		return true
+	}
+	if t.Op == "and" {
+		for _, a := range t.Args {
+			if !st.knows(tb, a) {
+				return false
+			}
+		}
+		return true
+	}
+	if t.Op == "not" && t.Args[0].Op == "or" {
+		for _, a := range t.Args[0].Args {
+			if !st.knows(tb, tb.Not(a)) {
+				return false
+			}
+		}
+		return true
+	}
+	return false
 }
